@@ -87,6 +87,9 @@ structure St where
   /-- keys ever cached per builder, newest first (what `Reset` ranges over; Go's map order is arbitrary) -/
   keys : Nat → List Nat
   nStubs : Nat
+  /-- mocker handles the user keeps in a variable (`m := b.Func(f)`): builder → key → mocker id.  Operations through a kept
+      handle bypass the builder's cache rule (no `Canceled()` test, no replacement by a fresh mocker). -/
+  handle : Nat → Nat → Option Nat
 
 def init (env : Env) : St where
   text := env.pristine
@@ -99,6 +102,7 @@ def init (env : Env) : St where
   cache := fun _ _ => none
   keys := fun _ => []
   nStubs := 0
+  handle := fun _ _ => none
 
 /-! ## internal/patch -/
 
@@ -213,6 +217,14 @@ inductive Op where
   | ret (b key : Nat) (origin : Option Nat)
   | cancel (b key : Nat)
   | reset (b : Nat)
+  /-- `m := b.Func(f)` (or ExportFunc / Struct(..).Method / ...): look the mocker up and keep the handle -/
+  | keep (b key : Nat)
+  /-- `m.Apply(cb k)` through the kept handle -/
+  | applyH (b key k : Nat)
+  /-- `m.Return(v)` through the kept handle -/
+  | retH (b key : Nat)
+  /-- `m.Cancel()` through the kept handle -/
+  | cancelH (b key : Nat)
 
 /-- mocker.go:577 `Origin(originFunc)`: `m.origin = originFunc` (stays until Cancel) -/
 def setOrigin (s : St) (id : Nat) : Option Nat → St
@@ -249,6 +261,23 @@ def step (env : Env) (s : St) : Op → St × Option Err
     let r := getMocker s b key
     (cancelMocker r.1 r.2, none)
   | .reset b => (cancelKeys s b (s.keys b), none)
+  | .keep b key =>
+    let r := getMocker s b key
+    ({ r.1 with handle := fun b' k' => if b' = b ∧ k' = key then some r.2 else r.1.handle b' k' }, none)
+  | .applyH b key k =>
+    match s.handle b key with
+    | none => (s, none)
+    | some id => applyCb env s id k
+  | .retH b key =>
+    match s.handle b key with
+    | none => (s, none)
+    | some id =>
+      if (s.mockers id).hasWhen then (s, none)
+      else applyImp env (whens s id) id (.stub s.nStubs)
+  | .cancelH b key =>
+    match s.handle b key with
+    | none => (s, none)
+    | some id => (cancelMocker s id, none)
 
 def run (env : Env) (s : St) : List Op → St
   | [] => s
